@@ -248,4 +248,128 @@ theorem inv_stepTr {cfg : Cfg} {s : St} {d : Disk} (h : Inv cfg s d) {a : Act} {
     · cases hs
   | _ => simp [stepTr] at hs
 
+/-- the state after `Transaction.Discard` with a commit job at its retry point -/
+abbrev St.discarded (s : St) (g : Grp) : St :=
+  { s with tr := none, job := none, seq := max s.seq (g.fin - 1), hi := max s.hi g.fin, issued := setStatus g .failed s.issued }
+
+/-- `Discard` after a failed `Commit` (the job is at its retry point, its record is not in the manifest): the
+    transaction's table is removed, or — the manifest being uncertain — left behind as an obsolete file -/
+theorem inv_trDiscardJob_core {cfg : Cfg} {s : St} {d : Disk} (h : Inv cfg s d) {g : Grp} {j : Job}
+    (hg : s.tr = some g) (hj : s.job = some j) (hk : j.kind = .tr) (hpc : j.pc = .append)
+    (hsett : Settled cfg s d (Mirror s)) {T : Files TableFile}
+    (hT : T = d.tables ∨ ∃ t, j.outs = [(t, [g])] ∧ T = d.tables.erase t) :
+    Inv cfg (s.discarded g) { d with tables := T } := by
+  have hok := h.job
+  rw [hj] at hok
+  have hok : JobOK cfg s d j := hok
+  have hbc : j.pc.beforeCommit = true := by rw [hpc]; rfl
+  have hkind := hok.kind
+  unfold JobKindOK at hkind
+  rw [hk] at hkind
+  simp only at hkind
+  obtain ⟨hph, _, _, _, _⟩ := hkind
+  have hrun := h.run hph
+  have hb := h.bounds (by rw [hph]; decide)
+  have htr := hrun.norecov.2
+  unfold TrOK at htr
+  rw [hg] at htr
+  obtain ⟨hw, hmem, hfz, hgs, _⟩ : s.w = .idle ∧ s.mem = [] ∧ s.frozen = none ∧ g.seq = s.seq + 1 ∧ g.sync = true := htr
+  have hmust : ∀ x ∈ must (s.discarded g), x ∈ must s := by
+    intro x hx
+    rw [must_eq] at hx ⊢
+    simp only [hw, List.append_nil] at hx ⊢
+    exact (mem_ackedSync_setStatus_failed hx).1
+  have hiss : ∀ x ∈ issuedGrps s, x ∈ issuedGrps (s.discarded g) := by
+    intro x hx
+    simp only [issuedGrps, issuedGrps_setStatus] at hx ⊢
+    exact hx
+  have hq : s.seq ≤ (s.discarded g).seq := Nat.le_max_left _ _
+  have hmg : MustGrows s (s.discarded g) := fun x hx => Or.inl (hmust x hx)
+  have hfd : s.manifestFd = d.current := by
+    have := hrun.mfd.1
+    unfold MfdOK at this
+    rw [hj] at this
+    simp only [Option.map_some, hpc] at this
+    exact this
+  constructor
+  · apply DiskOK.frame h.disk (d' := { d with tables := T }) rfl rfl _ _ h.disk.mnodup hmust hiss
+    · intro mf hc k hk' v hv t ht
+      rcases hT with rfl | ⟨t0, ho, rfl⟩
+      · rfl
+      · show lookup (d.tables.erase t0) t = _
+        rw [lookup_erase, if_neg]
+        intro e
+        have hf := holds_some (holds_some (hok.fresh.2 hbc) hc k hk') hv
+        have h1 := hf.1 (t0, [g]) (by rw [ho]; exact List.mem_singleton.2 rfl)
+        have h2 := ((h.disk.allViews mf hc k hk' v hv).tables t ht).1
+        simp only at h1
+        omega
+    · rcases hT with rfl | ⟨t0, _, rfl⟩
+      · exact h.disk.tnodup
+      · exact pairwise_erase t0 h.disk.tnodup
+  · exact h.mm.of_same rfl rfl
+  · intro _
+    exact hb.of_same rfl (seqHi_le_of_not_window (not_trWindow_of_bc hj hbc) (not_trWindow_of_nojob rfl) hq)
+      (Nat.le_refl _) (fun _ => ⟨hph, Nat.le_refl _⟩)
+  · intro _
+    obtain ⟨r1, r2, r3, r4, r5, r6, r7, r8, r9⟩ := hrun
+    refine ⟨⟨r1.1, trivial⟩, ⟨MfdOK.nojob rfl hfd, r2.2⟩, ?_, r4, r5, ?_, ?_, ?_, fun _ => ?_⟩
+    · refine r3.imp (fun jf hjf => ?_)
+      obtain ⟨a, b, c, e⟩ := hjf
+      refine ⟨a, fun x hx hxm => b x hx (hmust x hxm), fun x hx => ?_, e⟩
+      rcases c x hx with h1 | h1
+      · exact Or.inl h1
+      · exact Or.inr (Nat.le_trans h1 (Nat.succ_le_succ hq))
+    · show WSeqOK _
+      simp only [WSeqOK, hw, hmem]
+      intro x hx; cases hx
+    · rcases frozenOK_iff.1 r7 with ⟨h1, h2⟩ | ⟨fz, jf, h1, _⟩
+      · exact frozenOK_iff.2 (Or.inl ⟨h1, h2⟩)
+      · rw [hfz] at h1; cases h1
+    · refine r8.imp (fun mf1 hmf1 => hmf1.imp (fun v1 hv1 p hp hge => ?_))
+      rcases hv1 p hp hge with h1 | h1 | h1
+      · exact Or.inl h1
+      · exact Or.inr (Or.inl h1)
+      · exact Or.inr (Or.inr ⟨h1.1.mono hq hmg, h1.2⟩)
+    · exact hsett
+  · intro hc; rw [hph] at hc; cases hc
+  · intro hc; rw [hph] at hc; cases hc
+  · trivial
+
+theorem JobOK.settled_at_append {cfg : Cfg} {s : St} {d : Disk} {j : Job} (h : JobOK cfg s d j) (hpc : j.pc = .append) :
+    Settled cfg s d (Mirror s) := h.mirror_before (by rw [hpc]; rfl)
+
+theorem inv_trDiscardJob {cfg : Cfg} {s : St} {d : Disk} (h : Inv cfg s d) {s' : St} {d' : Disk}
+    (hs : trDiscardJob cfg s d = some (s', d')) : Inv cfg s' d' := by
+  unfold trDiscardJob at hs
+  split at hs
+  · rename_i g j hg hj
+    split at hs
+    · rename_i hc
+      obtain ⟨hk, hpc⟩ := hc
+      simp only [Option.some.injEq, Prod.mk.injEq] at hs
+      obtain ⟨rfl, rfl⟩ := hs
+      have hok := h.job
+      rw [hj] at hok
+      have hok : JobOK cfg s d j := hok
+      have hkind := hok.kind
+      unfold JobKindOK at hkind
+      rw [hk] at hkind
+      simp only at hkind
+      obtain ⟨_, _, _, _, hkind⟩ := hkind
+      rw [hg] at hkind
+      have hkind : Holds j.edit fun e => e.jn = none ∧ e.sq = some (g.fin - 1) ∧
+          j.outs = [(e.added.headD 0, [g])] ∧ g.recs ≠ [] ∧ g ∈ issuedGrps s := hkind
+      rw [holds_iff] at hkind
+      obtain ⟨e, he, _, _, houts, _⟩ := hkind
+      split
+      · exact inv_trDiscardJob_core h hg hj hk hpc (hok.settled_at_append hpc) (Or.inl rfl)
+      · have : (j.outs.foldl (fun d o => d.apply (.remove .table o.1)) d) =
+            { d with tables := d.tables.erase (e.added.headD 0) } := by
+          rw [houts]; rfl
+        rw [this]
+        exact inv_trDiscardJob_core h hg hj hk hpc (hok.settled_at_append hpc) (Or.inr ⟨_, houts, rfl⟩)
+    · cases hs
+  · cases hs
+
 end GoLevel.Dur
